@@ -306,6 +306,10 @@ def check_helper(case, ctx):
     kv_arg = tuple(kv) if d.get("kv_tuple") else kv          # the helpers document list or tuple
     ctx.label("knot-vector-as-tuple", bool(d.get("kv_tuple")))
     new_cp = helpers.knot_insertion(p, kv_arg, cp, u, num=r, s=s, span=span)
+    if helpers.find_multiplicity(u, kv) == s:
+        # the documented call names only 'num': multiplicity and span are then found by the helper itself
+        ctx.check(helpers.knot_insertion(p, kv_arg, cp, u, num=r) == new_cp, "helper-defaults",
+                  "knot_insertion(..., num=%d) without s/span differs from the call with multiplicity %d and span %d" % (r, s, span))
     new_kv = list(helpers.knot_insertion_kv(kv_arg, u, span, r))
     ctx.nt(s >= 1, "on-knot-insertion")
     ctx.nt(r >= 2, "count>=2")
